@@ -47,6 +47,7 @@ def run(ctx):
     F = ctx.F
     ctx.rule("C07.D1", "sync_migration_state: commit dominates both pushes, destination before source, failed commit reaches neither")
     ctx.rule("C07.D2", "coordinator never forces; SETREPL then SETCLUSTER on every Ok path; OLD_EPOCH -> Ok, NOT_MY_META -> Err")
+    ctx.rule("C07.D6", "shared with C05 / C04: a proxy installs a non-forced message only when its epoch is strictly greater (install decision tables of SETCLUSTER / SETREPL), and every change the broker publishes gets a global epoch that was not handed out before (mutator versioning) - the two facts the coordinator's `OLD_EPOCH = already up to date` reading rests on")
     ctx.rule("C07.D5", "coordinator loop components are stateless (no field with interior mutability or a collection) and send_meta is skipped only when the broker has no record of the proxy")
     ctx.rule("C07.D4", "periodic synchronizer: every retrieved address is synced, no filter, single loop exit, errors accumulated")
     ctx.rule("C07.D5", "broker commit matching by (range list, exact epoch, direction): truth tables of the four predicates")
@@ -57,6 +58,10 @@ def run(ctx):
     _full_resync(ctx)
     _send_unconditional(ctx)
     _stateless(ctx)
+    from ..engine import AliasCtx
+    from . import C05 as _c05, C04 as _c04
+    _c05.run(AliasCtx(ctx, "C07.D6", only={"C05.D1"}))
+    _c04.run(AliasCtx(ctx, "C07.D6", only={"C04.D1"}))
     _commit(ctx, "C07.D5")
 
 
